@@ -3,8 +3,8 @@ CONSTANTS
   SpuriousPass = FALSE
   AllSchedules = FALSE
   PermuteModules = FALSE
-  Trees = {"flat", "nested", "three", "empty", "dotted"}
-  BackSets = {"none", "pro", "epi", "both", "two", "mixed", "comment", "other"}
+  Trees = {"flat", "nested", "three", "empty", "dotted", "samename"}
+  BackSets = {"none", "pro", "epi", "both", "two", "mixed", "split", "comment", "other"}
   Collisions = {"none", "duptype", "typeenum", "externdef", "uservft", "uservft1"}
   Ptrs = {4, 8}
   InDirs = {"plain", "dot", "trailing", "script"}
